@@ -6,7 +6,7 @@ EXTENDS Encoding, TLC, Json
 VARIABLES row, step
 vars == <<row, step>>
 Rows == [scheme : Schemes, header : Headers, cls : Classes, media : {"ts", "json"}, pos : {"root", "dep"}]
-Init == row \in Rows /\ step = 0
+Init == row \in Rows /\ step = 0 /\ (row.scheme = "jsr" => (row.header = "none" /\ row.pos = "dep"))
 Next == step = 0 /\ step' = 1 /\ UNCHANGED row
 Spec == Init /\ [][Next]_vars
 \* sanity of the table itself
